@@ -7,7 +7,8 @@
      O <op#> ok|skip|bad <code>          verdict of Tree.tree_step for the implementation's outcome
      W <op#> <issue> ...                 violated structural clauses after this op
      M <op#>                             decoded image differs from the abstract tree
-     I <op#> free=<n> copies=<0|1> status=<byte> fsfree=<n> fsnext=<n> bits=<n> clusters=<n>
+     I <op#> free=<n> copies=<0|1> status=<byte> fsfree=<n> fsnext=<n> bits=<n> clusters=<n> res0=<raw,..> res1=<raw,..>
+                                        (res0/res1: raw FAT entries 0 and 1 of every copy)
      X <op#> <text>                      judge could not interpret the transcript line
 *)
 open Conv
@@ -210,7 +211,7 @@ let run_script (si : int) (ops : opblock list) (do_wf : bool) (do_tree : bool) (
            | off :: hx :: r -> im := Image.img_write !im (n_of_string off) (bytes_of_hex hx); go r
            | _ -> () in
          go (split_ws b.rpayload); formatted := true
-       | "format" :: _ when okp -> formatted := true
+       | "format" :: _ when okp && Stdlib.List.exists (fun ev -> match ev with "w" :: _ -> true | _ -> false) b.events -> formatted := true
        | "mount" :: _ :: _ :: o :: _ -> oem := (if o = "table" then oem_table else oem_lossy)
        | _ -> ());
       if b.rkind = "bad" then ()
@@ -347,12 +348,20 @@ let run_script (si : int) (ops : opblock list) (do_wf : bool) (do_tree : bool) (
           let g = Abs.parse_geom !im in
           let fsi = BinNat.N.mul g.Abs.g_fsinfo_sector g.Abs.g_bps in
           let is32 = int_of_n (Abs.g_bits g) = 32 in
-          Printf.printf "I %d free=%s copies=%d status=%s fsfree=%s fsnext=%s bits=%s clusters=%s\n" oi
+          (* raw reserved FAT entries 0 and 1 of every copy (FAT32: all 32 bits), comma separated *)
+          let raw_entry copy c =
+            let bits = int_of_n (Abs.g_bits g) in
+            let base = Abs.g_fat_off g (n_of_int copy) in
+            if bits = 12 then Abs.fat_raw g !im (n_of_int copy) (n_of_int c)
+            else if bits = 16 then Image.img_u16 !im (BinNat.N.add base (n_of_int (2 * c)))
+            else Image.img_u32 !im (BinNat.N.add base (n_of_int (4 * c))) in
+          let raws c = String.concat "," (Stdlib.List.init (max 1 (int_of_n g.Abs.g_fats)) (fun k -> string_of_n (raw_entry k c))) in
+          Printf.printf "I %d free=%s copies=%d status=%s fsfree=%s fsnext=%s bits=%s clusters=%s res0=%s res1=%s\n" oi
             (string_of_n (Abs.count_free g !im)) (if Abs.fat_copies_equal g !im then 1 else 0)
             (string_of_n (Image.img_get !im (Abs.g_status_off g)))
             (if is32 then string_of_n (Image.img_u32 !im (BinNat.N.add fsi (n_of_int 488))) else "0")
             (if is32 then string_of_n (Image.img_u32 !im (BinNat.N.add fsi (n_of_int 492))) else "0")
-            (string_of_n (Abs.g_bits g)) (string_of_n (Abs.g_clusters g))
+            (string_of_n (Abs.g_bits g)) (string_of_n (Abs.g_clusters g)) (raws 0) (raws 1)
         end
       end
     end) ops;
